@@ -89,7 +89,7 @@ def main():
             if os.path.exists(meta):
                 with open(meta) as f:
                     exp = [json.load(f)["breaks_property"]]
-        related = [c for c in ("C01", "C02") if c not in exp] if name.startswith("seeded_") else []
+        related = [c for c in ("C01",) if c not in exp] if name.startswith("seeded_") else []
         checks = ALL if allchecks or not exp else exp + related
         r = run_mutant(name, path, checks, tier)
         r["expected"] = exp
